@@ -159,9 +159,9 @@ fn main() {
     rep.rule("every selection component executed on prepared two-population stacks of uniquely tagged individuals (sizes 0..8, duplicate/tied/negative/zero/infinite objective values) x requested counts {0,1,size-1,size,size+3} x seeds: stack below and source untouched (also after an error), exactly one population pushed, members are exact copies, count/distinctness as requested, documented unusable inputs give Err (never a panic); helper laws (proportional_weights antitone and >= offset, objective_bounds, reverse_rank monotone); selection pressure: per-pair frequency comparison over N draws with a Hoeffding margin, tournament over the whole population returns a best individual; DE selections: length and block layout. distinct_nontrivial = distinct (operator, parameters, population) cells");
     rep.assume("inputs that are neither valid nor documented as errors (e.g. FullyRandom on an empty population, tournament size 0) are not judged; frequency margin 2*sqrt(ln(2/1e-10)/(2N))");
     let mut rng = SplitMix64::new(rep.seed).fork(0xC11);
-    let pops = populations(&mut rng, rep.tier.pick(300, 1500));
+    let pops = populations(&mut rng, rep.tier.pick(300, 8000));
     let below: Vec<T> = vec![(900, 7.0f64.to_bits()), (901, 8.0f64.to_bits())];
-    let seeds = rep.tier.pick(8u64, 32u64);
+    let seeds = rep.tier.pick(8u64, 64u64);
     for (pi, src) in pops.iter().enumerate() {
         let size = src.len();
         let finite = src.iter().all(|t| val(t).is_finite());
@@ -327,7 +327,7 @@ fn main() {
     }
     // IWO on real-valued objectives and spreads that are not powers of two: the best individual gets
     // exactly max copies, the worst exactly min, everyone in between a number in [min, max], better never fewer
-    for k in 0..rep.tier.pick(3_000, 60_000) {
+    for k in 0..rep.tier.pick(3_000, 1_000_000) {
         let size = 2 + rng.usize(7);
         let vals: Vec<f64> = (0..size).map(|_| if rng.chance(0.5) { (rng.below(100) as f64) / 10.0 } else { rng.f64_in(-50.0, 50.0) }).collect();
         let src: Vec<T> = vals.iter().enumerate().map(|(i, v)| (i as u32 + 1, v.to_bits())).collect();
@@ -356,7 +356,7 @@ fn main() {
         }
     }
     // selection pressure: frequencies
-    let n_draws = rep.tier.pick(40_000u32, 200_000u32);
+    let n_draws = rep.tier.pick(40_000u32, 1_000_000u32);
     let margin = 2.0 * ((2.0f64 / 1e-10).ln() / (2.0 * n_draws as f64)).sqrt();
     rep.set("pressure_draws", json!(n_draws));
     rep.set("pressure_margin", json!(margin));
